@@ -295,6 +295,12 @@ func (r *DenseInt32Matrix) MdotM(a, b ConstMatrix) Matrix {
   }
   t1 := int32(0)
   t2 := int32(0)
+  if r.storageLocation() == b.storageLocation() &&
+     r.storageLocation() == a.storageLocation() {
+    // r is both factors: the column-wise schedule below would overwrite
+    // columns of a that are still needed
+    a = a.CloneConstMatrix()
+  }
   if r.storageLocation() == b.storageLocation() {
     t3 := make([]int32, n)
     for j := 0; j < m; j++ {
@@ -337,6 +343,12 @@ func (r *DenseInt32Matrix) MDOTM(a, b *DenseInt32Matrix) Matrix {
   }
   t1 := int32(0)
   t2 := int32(0)
+  if r.storageLocation() == b.storageLocation() &&
+     r.storageLocation() == a.storageLocation() {
+    // r is both factors: the column-wise schedule below would overwrite
+    // columns of a that are still needed
+    a = a.Clone()
+  }
   if r.storageLocation() == b.storageLocation() {
     t3 := make([]int32, n)
     for j := 0; j < m; j++ {
